@@ -432,8 +432,8 @@ func fmtNodes(ts, bits []uint32) string {
 // the difficulty ratio, and whole chains validated by a node.
 func genChains(g *hx.Gen, limits []*big.Int) {
 	r := g.R
-	n := g.N(40000, 2000000)
-	for i := 0; i < n/40; i++ {
+	cnt := g.N(1000, 12000)
+	for i := 0; i < cnt; i++ {
 		adj := int64(1 + r.Intn(8))
 		per := int64(1 + r.Intn(60))
 		blocks := int64(2 + r.Intn(30))
@@ -472,7 +472,7 @@ func genChains(g *hx.Gen, limits []*big.Int) {
 		}
 		g.Emit("walk %d %d %d %s %x %d %s", adj, ts, per, lim.String(), 0x1f0008ff, tipHeight, fmtNodes(tss, bs))
 	}
-	for i := 0; i < n/40; i++ {
+	for i := 0; i < cnt; i++ {
 		L := 1 + r.Intn(140)
 		if r.Chance(30) {
 			L = 118 + r.Intn(6)
@@ -505,13 +505,13 @@ func genChains(g *hx.Gen, limits []*big.Int) {
 		}
 		g.Emit("hashps %d %s", tipHeight, fmtNodes(tss, bs))
 	}
-	for i := 0; i < n/40; i++ {
+	for i := 0; i < cnt; i++ {
 		lb := []uint32{0x1f0008ff, 0x207fffff, 0x2000ffff}[r.Intn(3)]
 		g.Emit("curdiff %x %x", lb, genCompact(r))
 	}
 	// whole chains on a real node (retarget every 10 blocks)
 	gb := core.GenesisBlock(common.Uint168{})
-	for i := 0; i < g.N(6, 300); i++ {
+	for i := 0; i < g.N(6, 150); i++ {
 		L := 11 + r.Intn(25)
 		var steps []string
 		style := r.Intn(4)
